@@ -1,9 +1,9 @@
 SPECIFICATION Spec
-CONSTANTS MaxGrow = 1
+CONSTANTS MaxGrow = 0
           MaxGrowExt = 0
           MaxShrink = 0
           RandPerKind = 0
           Seed = 1
-          MaxHist = 0
-INVARIANTS L2Strict
+          MaxHist = 1
+INVARIANTS RecvInplaceL1
 CHECK_DEADLOCK FALSE
